@@ -4,7 +4,8 @@
 //! and by `check fuzz-replay <target> <file>` (which turns a crash artifact into
 //! a replay file).
 use crate::engine::*;
-use crate::props::{c05, c06, c07, c11, c12, c13, c14, c15, c18, c20};
+use crate::props::common::Xs;
+use crate::props::{c01, c02, c03, c04, c05, c06, c07, c08, c09, c10, c11, c12, c13, c14, c15, c16, c17, c18, c20};
 use arbitrary::Unstructured;
 
 const VALUE_TABLE: [f64; 16] = [0.0, 1.0, -1.0, 2.5, 0.5, 3.0, 7.0, -2.0, 10.0, 100.0, -0.0, 1e-3, 1e9, 1e9 + 1.0, 0.1, -7.25];
@@ -318,6 +319,191 @@ pub fn history(data: &[u8], known: &[&str]) -> Option<Found> {
     }
 }
 
+/// A compact "value program": a few bytes describe up to `maxn` observations (literals,
+/// repeated patterns, ramps, pseudo-random blocks) on top of an offset and a scale, so that
+/// a 600-byte input reaches lengths beyond 2^16 and data with offsets of 1e11 spreads.
+fn program(u: &mut Unstructured, maxn: usize) -> Option<Vec<f64>> {
+    let h = u.arbitrary::<u8>().ok()?;
+    let offset = [0.0, 0.0, 1.0, 1e3, 1e6, 1e9, -1e6, 1e11][(h % 8) as usize];
+    let scale = 10f64.powi([0, 0, -10, 10, -25, 15, 3, -3][((h >> 3) % 8) as usize]);
+    let mut d: Vec<f64> = Vec::new();
+    while !u.is_empty() && d.len() < maxn {
+        let op = u.arbitrary::<u8>().ok()?;
+        match op % 8 {
+            0 | 1 | 2 => d.push(u.arbitrary::<i8>().ok()? as f64 * 0.25),
+            3 => d.push(VALUE_TABLE[((op >> 3) % 16) as usize]),
+            4 => {
+                // repeat the last m values k times
+                let m = (1 + ((op >> 3) % 4) as usize).min(d.len());
+                let k = (u.arbitrary::<u16>().ok()? % 8192) as usize;
+                if m == 0 {
+                    continue;
+                }
+                let pat: Vec<f64> = d[d.len() - m..].to_vec();
+                for i in 0..k * m {
+                    if d.len() >= maxn {
+                        break;
+                    }
+                    d.push(pat[i % m]);
+                }
+            }
+            5 => {
+                let cnt = (u.arbitrary::<u16>().ok()? % 4096) as usize;
+                let step = u.arbitrary::<i8>().ok()? as f64 * 0.125;
+                let last = d.last().copied().unwrap_or(0.0);
+                for i in 1..=cnt {
+                    if d.len() >= maxn {
+                        break;
+                    }
+                    d.push(last + step * i as f64);
+                }
+            }
+            6 => {
+                let x = f64::from_bits(u.arbitrary::<u64>().ok()?);
+                d.push(if x.is_finite() && x.abs() <= 1e6 && (x == 0.0 || x.abs() >= 1e-6) { x } else { VALUE_TABLE[(x.to_bits() % 16) as usize] });
+            }
+            _ => {
+                let cnt = (u.arbitrary::<u16>().ok()? % 16384) as usize;
+                let mut r = Sm(u.arbitrary::<u8>().ok()? as u64 + 1);
+                let heavy = op & 0x80 != 0;
+                for _ in 0..cnt {
+                    if d.len() >= maxn {
+                        break;
+                    }
+                    let z = r.f() * 2.0 - 1.0;
+                    d.push(if heavy { z * z * z * 8.0 } else { z });
+                }
+            }
+        }
+    }
+    Some(d.into_iter().map(|v| scale * (offset + v)).collect())
+}
+
+const WEIGHT_TABLE: [f64; 8] = [1.0, 0.0, 0.5, 2.0, 1e-6, 1e6, 3.0, 0.25];
+
+/// The numeric family (C01-C04, C08-C10, C16, C17) on one decoded value program
+/// (+ chunking, merge order, ingestion path, second coordinate).
+pub fn moments(data: &[u8], known: &[&str]) -> Option<Found> {
+    let mut u = Unstructured::new(data);
+    let which = u.arbitrary::<u8>().ok()?;
+    let fam = match only() {
+        Some("C01") => 0,
+        Some("C02") => 1,
+        Some("C03") => 2,
+        Some("C04") => 3,
+        Some("C08") => 4,
+        Some("C09") => 5,
+        Some("C10") => 6,
+        Some("C16") => 7,
+        Some("C17") => 8,
+        Some(_) => return None,
+        None => which % 9,
+    };
+    let sub = u.arbitrary::<u8>().ok()?;
+    let ncuts = (u.arbitrary::<u8>().ok()? % 7) as usize;
+    let cut_frac: Vec<u16> = (0..ncuts).map(|_| u.arbitrary::<u16>().unwrap_or(0)).collect();
+    let merges: Vec<usize> = (0..ncuts).map(|_| (u.arbitrary::<u8>().unwrap_or(0) % 8) as usize).collect();
+    let second = u.arbitrary::<u8>().ok()?;
+    // one input in 16 may grow beyond 2^16 observations (merge/len arithmetic on large counts); the rest stay
+    // short so that the campaign keeps hundreds of executions per second under ASan
+    let xs = program(&mut u, if which >> 4 == 15 { 70000 } else { 1200 })?;
+    let n = xs.len();
+    let mut cuts: Vec<usize> = if sub & 0x40 != 0 && n <= 3000 { (1..n).collect() } else { cut_frac.iter().map(|f| (*f as usize * (n + 1)) >> 16).collect() };
+    cuts.sort();
+    let ys = |xs: &[f64]| -> Vec<f64> {
+        let mut r = Sm(second as u64 * 77 + 5);
+        xs.iter().enumerate().map(|(i, &x)| match second % 6 {
+            0 => x,
+            1 => -x,
+            2 => r.f() * 2.0 - 1.0,
+            3 => 0.5 * x + (r.f() - 0.5) * 1e-3 * x.abs().max(1e-20),
+            4 => xs[xs.len() - 1 - i],
+            _ => (i % 5) as f64 * 1e4 + 1e9,
+        }).collect()
+    };
+    let ws = |n: usize| -> Vec<f64> {
+        let (a, b) = ((second >> 3) as usize | 1, (second & 7) as usize);
+        (0..n).map(|i| if second & 0x80 != 0 && i == 0 { 0.0 } else { WEIGHT_TABLE[(i * a + b) % 8] }).collect()
+    };
+    match fam {
+        0 => {
+            let c = Xs { xs };
+            if let Some(f) = run("C01", &c01::var_check(), &c, known) {
+                return Some(f);
+            }
+            if let Some(f) = run("C01", &c01::mean_check(), &c, known) {
+                return Some(f);
+            }
+            run("C01", &c01::ExtendPath, &c02::Chunked { xs: c.xs, cuts, merges: vec![] }, known)
+        }
+        1 => run("C02", &c02::MergeAll, &c02::Chunked { xs, cuts, merges }, known),
+        2 => {
+            let c = Xs { xs };
+            if let Some(f) = run("C03", &c03::skew_check(), &c, known) {
+                return Some(f);
+            }
+            if let Some(f) = run("C03", &c03::kurt_check(), &c, known) {
+                return Some(f);
+            }
+            if n <= 64 {
+                return run("C03", &c03::EqualMeanShards, &c, known);
+            }
+            None
+        }
+        3 => {
+            let mode = (sub >> 4) % 3;
+            match sub % 6 {
+                0 => run("C04", &c04::s4(), &Xs { xs: c04::rescale_to_edge(&xs, 4, mode) }, known),
+                1 => run("C04", &c04::s5(), &Xs { xs: c04::rescale_to_edge(&xs, 5, mode) }, known),
+                2 => run("C04", &c04::s6(), &Xs { xs: c04::rescale_to_edge(&xs, 6, mode) }, known),
+                3 => run("C04", &c04::s8(), &Xs { xs: c04::rescale_to_edge(&xs, 8, mode) }, known),
+                4 => run("C04", &c04::s10(), &Xs { xs: c04::rescale_to_edge(&xs, 10, mode) }, known),
+                _ => run("C04", &c04::Cross, &Xs { xs: c04::rescale_for_order(&xs, 6) }, known),
+            }
+        }
+        4 => {
+            let w = ws(n);
+            let pairs = xs.into_iter().zip(w).collect();
+            run("C08", &c08::Weighted, &c08::WCase { pairs, cuts, merges, path: sub % c08::PATHS }, known)
+        }
+        5 => {
+            let y = ys(&xs);
+            let pairs = xs.into_iter().zip(y).collect();
+            run("C09", &c09::Cov, &c08::WCase { pairs, cuts, merges, path: sub % 5 }, known)
+        }
+        6 => run("C10", &c10::SampleStats, &Xs { xs }, known),
+        7 => {
+            // C16: the first value of the program, n in 0..=4 or a constant stream; every third case non-constant
+            let ty = c16::TYPES[(sub % 13) as usize];
+            let v = xs.first().copied().unwrap_or(0.0);
+            let cnt = match second % 8 {
+                0..=4 => (second % 8) as usize,
+                5 => n.min(3000),
+                6 => 5 + (n % 50),
+                _ => 1 + n % 5,
+            };
+            let mut x16: Vec<f64> = if sub & 0x40 != 0 && cnt >= 2 { xs.iter().copied().take(cnt.min(6)).collect() } else { vec![v; cnt] };
+            if x16.iter().any(|x| *x != 0.0 && (x.abs() < 1e-30 || x.abs() > 1e30)) {
+                x16 = vec![1.0; x16.len()];
+            }
+            let m = x16.len();
+            let y16: Vec<f64> = match ty {
+                "Covariance" => (0..m).map(|i| if second & 0x40 != 0 { 7.0 } else { 7.0 + i as f64 }).collect(),
+                _ => ws(m).into_iter().map(|w| if second & 0x20 != 0 { 0.0 } else { w }).collect(),
+            };
+            run("C16", &c16::Sentinels, &c16::S16 { ty: ty.to_string(), xs: x16, ys: y16, via_extend: sub & 0x80 != 0 }, known)
+        }
+        _ => {
+            // C17: no restriction on kappa; magnitudes up to 1e140 by an extra scale
+            let f = [1.0, 1e100, 1e-200, 1e125][(sub % 4) as usize];
+            let xs: Vec<f64> = xs.into_iter().take(30000).map(|x| x * f).collect();
+            let y = ys(&xs);
+            let w = ws(xs.len());
+            run("C17", &c17::Signs, &c17::Ill { xs, ys: y, ws: w, cuts, merges, path: (sub >> 2) % c08::PATHS }, known)
+        }
+    }
+}
+
 /// Signatures of the known findings a campaign must tolerate in-target (otherwise it
 /// would rediscover one crash forever): the `known:` lines of $VERIF_ROOT/KNOWN_FINDINGS.txt.
 pub fn known_sigs() -> &'static [&'static str] {
@@ -345,6 +531,7 @@ pub fn run_target(target: &str, data: &[u8], known: &[&str]) -> Option<Found> {
         "quantile" => quantile(data, known),
         "histogram" => histogram(data, known),
         "history" => history(data, known),
+        "moments" => moments(data, known),
         _ => None,
     }
 }
